@@ -4,6 +4,8 @@
 //!   A   the same users, storage in memory (session key K_A), the process user mapped to role `peer`
 //!   B2  B restarted on the same storage with an edited configuration (one user removed, one demoted)
 //!   C   auth_type = "admin-token"
+//!   E   config-file users, an explicitly EMPTY `unix_users` table: nobody may act through the socket (the harness
+//!       usually runs as root, the user the default table maps to admin)
 //!   F   two user names that differ only by Unicode normalisation
 //! B2 and F are the regression scenarios of the repaired findings F20c / F20d and F20b (switch off with --f20x 0).
 //! Every probe (a request with some credential, or a login attempt) becomes a Coq `case` for authn/AuthCheck.v.
@@ -154,6 +156,8 @@ mod httpd {
             }
         }
         cfg.auth_roles = Arc::new(map);
+        // the table the daemon will see is the one written: an empty table must not turn into the default (root = admin)
+        assert_eq!(cfg.unix_users().len(), spec.unix_users.len(), "unix_users of the configuration as read");
         cfg.process().unwrap_or_else(|e| panic!("config process: {e}"));
         let (running_tx, running_rx) = oneshot::channel();
         let (exit_tx, exit_rx) = oneshot::channel();
@@ -946,6 +950,9 @@ fn run(args: &Args) -> i32 {
     let spec_b2 = DaemonSpec { tag: "b2".into(), users: users_b2, ..spec_b.clone() };
     let spec_c = DaemonSpec { dir: out_abs.join("daemon-c"), tag: "c".into(), auth_type: "admin-token", admin_token: admin_c.clone(), roles: roles.clone(),
         users: vec![], unix_users: vec![(me.clone(), "readonly".into())], disk: None };
+    let admin_e = format!("adm-E-{:08x}", rng.next() as u32);
+    let spec_e = DaemonSpec { dir: out_abs.join("daemon-e"), tag: "e".into(), auth_type: "config-file", admin_token: admin_e.clone(), roles: roles.clone(),
+        users: users.iter().filter(|u| u.id == "alice" || u.id == "carol").cloned().collect(), unix_users: vec![], disk: None };
     let bob_fw = "\u{ff42}ob";     // "ｂob"
     let carl_fw = "\u{ff43}arl";   // "ｃarl": nobody called "carl" is configured
     let admin_f = format!("adm-F-{:08x}", rng.next() as u32);
@@ -964,6 +971,7 @@ fn run(args: &Args) -> i32 {
         Model { def: "dB2".into(), spec: spec_b2.clone(), key: 2, prior: "[ORestart cfg_dB2 1]".into(), first: Some(spec_b.clone()) },
         Model { def: "dC".into(), spec: spec_c.clone(), key: 3, prior: "[]".into(), first: None },
         Model { def: "dF".into(), spec: spec_f.clone(), key: 4, prior: "[]".into(), first: None },
+        Model { def: "dE".into(), spec: spec_e.clone(), key: 5, prior: "[]".into(), first: None },
     ];
     let mut header = String::from("From Coq Require Import String.\nFrom KV Require Import base.Tac auth.Perm auth.Routes authn.AuthChain authn.AuthToy authn.AuthCheck.\nOpen Scope string_scope.\nOpen Scope N_scope.\n");
     header += &format!("Definition norms : list (string * string) := {norms_term}.\n");
@@ -1275,6 +1283,51 @@ fn run(args: &Args) -> i32 {
     });
     daemon_c.stop();
 
+    // ================================================================== E: `unix_users` explicitly empty - no system user is mapped
+    let daemon_e = httpd::start(&spec_e, &mut hashes);
+    rt.block_on(async {
+        let mut cx = Ctx { d: "dE", admin: &admin_e, tcp: Client::new(Endpoint::Tcp(daemon_e.port)), ux: Client::new(Endpoint::Unix(daemon_e.unix_path.clone())),
+            adm: Client::new(Endpoint::Tcp(daemon_e.port)), unix_term: unix_term.clone(), hist_total: 0, scenario: "empty-unix-users", refused_with_effect: vec![] };
+        ensure_ca(&mut cx.adm, &admin_e, "ca1").await;
+        cx.hist_total = history_from(&mut cx.adm, &admin_e, "ca1", 0).await.0;
+        let mut own: BTreeMap<&str, String> = BTreeMap::new();
+        for (u, p) in [("alice", "pwA"), ("carol", "pwC")] {
+            // log in over the socket: the peer must not matter
+            let (st, ans) = do_login(&mut cx.ux, Some(&httpd::basic(u.as_bytes(), p.as_bytes()))).await;
+            if let Some((t, _, _)) = &ans { own.insert(u, t.clone()); }
+            rec.login("dE", &unix_term, Some((u, p)), &none, st, ans.map(|(_, i, r)| (i, r)), "valid", "configured user, right password, over the socket of a daemon without mapped system users", "empty-unix-users");
+        }
+        let (st, ans) = do_login(&mut cx.ux, None).await;
+        rec.login("dE", &unix_term, None, &none, st, ans.map(|(_, i, r)| (i, r)), "malformed", "no credentials over the socket", "empty-unix-users");
+        let carol_tok = own.get("carol").cloned().unwrap_or_default();
+        let mut creds: Vec<Cred> = vec![
+            none.clone(),
+            bad("BGarbage", "garbage", bearer("not-a-token"), "the text \"not-a-token\"".into()),
+            bad("BEmpty", "empty", b"Bearer ".to_vec(), "nothing after 'Bearer '".into()),
+            bad("BAdminVariant", "admin-variant", bearer(&format!("{admin_e}x")), "admin token with a character appended".into()),
+            bad("BAdminVariant", "other-instance", bearer(&admin_a), "the admin token of another instance".into()),
+            // stale / foreign tokens
+            Cred { coq: format!("(CToken dA {} {})", cs("alice"), cs("pwA")), header: Some(bearer(&a_tokens["alice"])), class: "other-instance", what: "session token of alice issued by another instance (that daemon is gone)".into() },
+            Cred { coq: format!("(CToken dB {} {})", cs("carol"), cs("pwC")), header: Some(bearer(&b_tokens["carol"])), class: "other-instance", what: "session token of carol issued by another instance (that daemon is gone)".into() },
+        ];
+        if carol_tok.len() > 8 {
+            creds.push(bad("BTrunc", "trunc", bearer(&carol_tok[..carol_tok.len() - 3]), "own token of carol, last 3 characters removed".into()));
+            let mut x = carol_tok.clone().into_bytes(); let k = x.len() / 2; x[k] ^= 1;
+            creds.push(bad("BFlip", "flip", { let mut h = b"Bearer ".to_vec(); h.extend_from_slice(&x); h }, format!("own token of carol, bit 0 of character {k} flipped")));
+        }
+        // genuine credentials act as what they are, whatever the peer
+        creds.push(Cred { coq: "CAdmin".into(), header: Some(bearer(&admin_e)), class: "admin", what: "the admin token".into() });
+        for (u, p) in [("alice", "pwA"), ("carol", "pwC")] {
+            if let Some(t) = own.get(u) { creds.push(Cred { coq: format!("(CToken dE {} {})", cs(u), cs(p)), header: Some(bearer(t)), class: "token", what: format!("session token of {u} issued by this instance") }); }
+        }
+        for c in &creds { cx.quick_probes(&mut rec, c).await; }
+        // every route, without bearer and with a wrong one
+        for c in creds.iter().take(2) { cx.route_sweep(&mut rec, c, &all_routes).await; }
+        requests_total += cx.tcp.sent + cx.ux.sent + cx.adm.sent;
+        impl_failures.extend(cx.refused_with_effect.drain(..));
+    });
+    daemon_e.stop();
+
     // ================================================================== F (regression F20b): names with the same normal form
     if f20b {
         let daemon_f = httpd::start(&spec_f, &mut hashes);
@@ -1310,7 +1363,7 @@ fn run(args: &Args) -> i32 {
     let stats = json!({
         "evaluations": evaluations,
         "distinct_nontrivial": rec.distinct.len(),
-        "rule": "one case per probe. Request probes: a credential x transport (TCP, Unix socket) x route. Credentials: none; the admin token; session tokens of four users; those with blanks around; headers the daemon does not read as a bearer; a logged-out token; tokens derived from two valid ones by truncation (17+ cuts), single-bit flips of the base64 text (every bit of every character of one token; of a second token a seeded sample, thorough: of three more tokens every bit), re-encodings (padding removed / added, URL-safe alphabet, blanks or a tab inside, percent-encoding, every combination of stray trailing bits), extensions; invented strings (fixed list, base64 of random bytes, a session in clear behind a zero nonce and tag), near misses of the admin token; tokens and admin token of a second instance with another key; tokens of a first life presented after a restart with an edited configuration (user unchanged / removed / demoted); logins and tokens of two users whose names have the same normal form; the nonce of the first token after a restart against the nonce of the first token of the first life (a repeated nonce is turned into a forged admin token and presented). Every credential gets GET /api/v1/authorized and a state-changing POST /api/v1/cas/ca1/routes (whose audit actor is read back from the CA history) on both transports; representatives of every class get a sweep over every route of the table regenerated by t_routes.py (thorough: more representatives per class). Login probes: every configured user with the right password, wrong passwords, unknown users, names differing by case / blanks / NFC-NFD / compatibility characters, malformed Basic headers, seeded name x password pairs. Non-trivial: a request probe on a route with a gate that carries some credential, or a login probe; distinct by (daemon, transport, header bytes, method, path) resp. (daemon, name, password).",
+        "rule": "one case per probe. Request probes: a credential x transport (TCP, Unix socket) x route. Credentials: none; the admin token; session tokens of four users; those with blanks around; headers the daemon does not read as a bearer; a logged-out token; tokens derived from two valid ones by truncation (17+ cuts), single-bit flips of the base64 text (every bit of every character of one token; of a second token a seeded sample, thorough: of three more tokens every bit), re-encodings (padding removed / added, URL-safe alphabet, blanks or a tab inside, percent-encoding, every combination of stray trailing bits), extensions; invented strings (fixed list, base64 of random bytes, a session in clear behind a zero nonce and tag), near misses of the admin token; tokens and admin token of a second instance with another key; tokens of a first life presented after a restart with an edited configuration (user unchanged / removed / demoted); a daemon whose unix_users table is explicitly empty and one whose table does not contain the harness's system user, probed over the socket without bearer, with wrong, damaged and foreign bearers (nobody may be authenticated) and with genuine ones; logins and tokens of two users whose names have the same normal form; the nonce of the first token after a restart against the nonce of the first token of the first life (a repeated nonce is turned into a forged admin token and presented). Every credential gets GET /api/v1/authorized and a state-changing POST /api/v1/cas/ca1/routes (whose audit actor is read back from the CA history) on both transports; representatives of every class get a sweep over every route of the table regenerated by t_routes.py (thorough: more representatives per class). Login probes: every configured user with the right password, wrong passwords, unknown users, names differing by case / blanks / NFC-NFD / compatibility characters, malformed Basic headers, seeded name x password pairs. Non-trivial: a request probe on a route with a gate that carries some credential, or a login probe; distinct by (daemon, transport, header bytes, method, path) resp. (daemon, name, password).",
         "samples": rec.samples,
         "status_by_credential_class_distribution": rec.status_by_class,
         "credential_class_distribution": rec.class_hist,
